@@ -14,7 +14,7 @@ separated by `;`, a list group is `nil`, `e` (empty, non-nil) or integers.
  argument is a window `off:len:cap` of it (or `nil`), see `C14Arena.lean`:
    diff D S1 S2 | intersect D S1 S2 | unique D S1 | uniquekey K D S1 | filter D S1 ; acc…
    diffip S1 S2 | intersectip S1 S2 | uniqueip S1 | uniquekeyip K S1 | filterip S1 ; acc…
-   copy A B S | subslice A B S | remove I S | appendsrc S ; v…
+   copy A B S | subslice A B S | remove I S | appendsrc S ; v… | values K S1 S2 …
  answer: the result (`win off len [..]`, `fresh [..]`, `e`, `nil`) `|` the whole arena afterwards.
 
 `@ C14 flex C0` : a FlexSlice with `Values = make([]int, 0, C0)`; ops
@@ -27,6 +27,7 @@ separated by `;`, a list group is `nil`, `e` (empty, non-nil) or integers.
  list operations `c14_flex_refines` speaks about (`appendn` = one `Append` of K values, `popn` = K `Pop`s).
 -/
 import Golib.Model.C14Arena
+import Golib.Model.C14FlexFast
 
 namespace Golib.C14
 open Golib.Proto
@@ -251,11 +252,34 @@ def flexStep (c : Bool) (f : Flex) (ts : List String) : Option (Option (Flex × 
   | ["len"] => some (some (f, toString f.len))
   | _ => none
 
-def runFlex (c : Bool) : Option Flex → List String → List String
+/-- `k` times `Pop()` on the array representation (O(1) each unless `shrink` reallocates) -/
+def repeatPopA : (k : Nat) → FlexA → Int → Nat → Option (FlexA × Int × Nat)
+  | 0, f, s, n => some (f, s, n)
+  | k + 1, f, s, n =>
+    match f.pop with
+    | none => none
+    | some (f', v, ok) => repeatPopA k f' (s + v) (if ok then n + 1 else n)
+
+/-- the oracle's step: `pop`, `popn`, `get` on the array representation (`c14_flex_fast_eq`: the same
+answers and states as the list model), every other op through the list model -/
+def flexStepA (c : Bool) (f : FlexA) (ts : List String) : Option (Option (FlexA × String)) :=
+  match ts with
+  | ["pop"] => some (f.pop.map fun (f', v, ok) => (f', s!"{v} {showBool ok} | {showFlex c f'.toFlex}"))
+  | ["popn", k] =>
+    match k.toNat? with
+    | some k => some ((repeatPopA k f 0 0).map fun (f', sum, n) => (f', s!"{sum} {n} | {showFlex c f'.toFlex}"))
+    | none => none
+  | ["get", i] =>
+    match i.toInt? with
+    | some i => some ((f.get i).map fun (v, ok) => (f, s!"{v} {showBool ok} | {showFlex c f.toFlex}"))
+    | none => none
+  | _ => (flexStep c f.toFlex ts).map fun r => r.map fun (f', out) => (FlexA.ofFlex f', out)
+
+def runFlex (c : Bool) : Option FlexA → List String → List String
   | _, [] => []
   | none, _ :: ls => "dead" :: runFlex c none ls
   | some f, l :: ls =>
-    match flexStep c f (toks l) with
+    match flexStepA c f (toks l) with
     | none => "bad-op" :: runFlex c (some f) ls
     | some none => "panic" :: runFlex c none ls
     | some (some (f', out)) => out :: runFlex c (some f') ls
@@ -269,11 +293,11 @@ def runCase (hdr : List String) (ops : List String) : List String :=
     | none => "bad-op" :: ops.map fun _ => "bad-op"
   | ["flex", c] =>
     match c.toNat? with
-    | some c => "ok" :: runFlex false (some (mkFlex [] c)) ops
+    | some c => "ok" :: runFlex false (some (FlexA.ofFlex (mkFlex [] c))) ops
     | none => "bad-op" :: ops.map fun _ => "bad-op"
   | ["flexL", c] =>
     match c.toNat? with
-    | some c => "ok" :: runFlex true (some (mkFlex [] c)) ops
+    | some c => "ok" :: runFlex true (some (FlexA.ofFlex (mkFlex [] c))) ops
     | none => "bad-op" :: ops.map fun _ => "bad-op"
   | _ => "bad-op" :: ops.map fun _ => "bad-op"
 
